@@ -22,6 +22,19 @@ def step (_ : Unit) (fields : List String) (impl : String) : Unit × Reply :=
       -- arbitrary strings: the property asserts nothing; only the correspondence is checked
       ((), .det (enc (ensurePort a port)) impl true true)
     | _, _ => ((), .bad)
+  | ["cform", k, h, p] =>
+    -- the same through the component constructor (which refuses ws: addresses instead of choosing a transport)
+    match parseKind k, dec h, (if p == "~" then some none else (dec p).map some) with
+    | some kind, some host, some port =>
+      let f : Form := ⟨kind, host, port⟩
+      if !f.wf then ((), .bad) else
+      let want := enc f.expected ++ " " ++ enc host ++ " " ++ enc (port.getD (itoa defaultPort))
+      let model := match componentTransport f.render with
+        | .xmpp out => enc out ++ " " ++ enc host ++ " " ++ enc (port.getD (itoa defaultPort))
+        | _ => "not-xmpp"
+      let known := if knownWsHost f then "F-20a" else "-"
+      ((), { Reply.det model impl (model == want) (impl == want) with known := known })
+    | _, _, _ => ((), .bad)
   | ["form", k, h, p] =>
     match parseKind k, dec h, (if p == "~" then some none else (dec p).map some) with
     | some kind, some host, some port =>
